@@ -134,7 +134,8 @@ fn tampers(tx: &Transaction, spent: &[TxOut], stride: usize) -> Vec<(String, Tra
             for (k, o2) in tx.output.iter().enumerate() {
                 if k != j {
                     if let Some(sp2) = &o2.witness.surjection_proof {
-                        if sp2 != sp {
+                        // a proof for the SAME asset generator is a valid proof for this output too: not a tamper
+                        if sp2 != sp && o2.asset != o.asset {
                             let mut t = tx.clone();
                             t.output[j].witness.surjection_proof = Some(sp2.clone());
                             push("surjectionproof-from-other-output".into(), t, spent.to_vec());
@@ -458,6 +459,26 @@ fn exact_proofs(r: &Report) {
                 r.violation(format!("exact-value-proof/accepted-under/{}", what), case.clone(), "explicit-value proof verifies for a different tuple");
             }
         }
+        // a genuine but NON-exact range proof for the same commitment (public minimum = the claimed amount, hidden range
+        // above it) must not pass as an explicit-value proof of that amount: the commitment may hide any value of the range
+        if value >= 4 && value < (1 << 40) {
+            for (claimed, min_bits) in [(value, 8u8), (value - 3, 4), (value - 3, 16)] {
+                // commitment to `value`, proof of "claimed <= hidden < claimed + 2^min_bits"
+                let loose = guard(|| zkp::RangeProof::new(s, claimed, comm, value, vbf.into_inner(), &[], &[], gen::sk(7200 + k), 0, min_bits, gen_));
+                if let Ok(Ok(p)) = loose {
+                    r.trans(1);
+                    if p.verify(s, comm, &[], gen_).is_err() {
+                        continue; // not a valid proof at all (parameters refused by the prover): nothing to learn
+                    }
+                    if p.blind_value_proof_verify(s, claimed, gen_, comm) && claimed != value {
+                        r.violation("exact-value-proof/accepted-under/non-exact-range-proof-for-another-amount", case.clone(), format!("a range proof with minimum {} and a hidden range verifies as an exact proof of {} although the commitment hides {}", claimed, claimed, value));
+                    }
+                    if claimed == value && p.blind_value_proof_verify(s, claimed, gen_, comm) {
+                        r.violation("exact-value-proof/accepted-under/non-exact-range-proof", case.clone(), format!("a range proof whose range is [{}, {}+2^{}) verifies as an exact proof", claimed, claimed, min_bits));
+                    }
+                }
+            }
+        }
         let ap = match guard(|| zkp::SurjectionProof::blind_asset_proof(&mut rng, s, asset, abf)) {
             Ok(Ok(p)) => p,
             other => {
@@ -485,6 +506,7 @@ pub fn run(r: &Report) {
         "(a) verifying transactions: a C04 sub-grid (1..3 inputs, explicit/confidential spent outputs, one/two assets, issuance, token-only issuance, reissuance, \
          1..3 marked outputs in all positions) + 6 transactions with a blinded output on a provably unspendable script (OP_RETURN data / bare OP_RETURN / empty) \
          + 4 hand-built mixed ones (explicit asset with confidential value; zero-value data output with a confidential asset) \
+         + 4 with two / three blinded outputs sharing ONE asset generator (same asset blinding factor) \
          + the repository's real-network transaction; tampers at EVERY applicable position: explicit \
          amount +-1 (outputs, fee), asset swapped, value / asset commitment replaced by another valid one and by each other output's, made \
          explicit, each range / surjection proof removed, exchanged with each other output's, truncated, bit-flipped (every byte in thorough, \
@@ -492,7 +514,7 @@ pub fn run(r: &Report) {
          output's value / asset changed, spent list shorter / longer (must be UtxoInputLenMismatch); (b) complete all-explicit product: 1..2 \
          inputs x assets {A,B} x values, issuance {none, amount, amount+tokens}, 0..2 outputs over assets {A,B,issued,token} x values 0..3 x \
          scripts {spendable, OP_RETURN, empty} (+ 3-output subset) vs the reference predicate; (c) exact-value / exact-asset proofs under \
-         value+-1, other commitment, other generator, other asset. non-trivial = distinct verifying base transactions / balanced models",
+         value+-1, other commitment, other generator, other asset, and genuine non-exact range proofs (hidden range above the claimed minimum). non-trivial = distinct verifying base transactions / balanced models",
     );
     // (a)
     let cases = c04::verifying_cases(r.seed, r.tier.pick(60, 400));
@@ -516,6 +538,12 @@ pub fn run(r: &Report) {
         r.machinery(format!("could not build the mixed-output base transactions ({} of 4)", mixed.len()));
     }
     mixed.par_iter().for_each(|(label, tx, spent)| check_tampers(r, label, tx, spent, stride));
+    let same_gen = same_generator_cases(r.seed);
+    r.set_extra("same_generator_base_transactions", json!(same_gen.len()));
+    if same_gen.len() < 4 {
+        r.machinery(format!("could not build the same-generator base transactions ({} of 4)", same_gen.len()));
+    }
+    same_gen.par_iter().for_each(|(label, tx, spent)| check_tampers(r, label, tx, spent, stride));
     // repository vector (transaction::tests::verify_ct): 1 confidential input, 2 CT outputs + fee
     if let Some((tx, spent)) = repo_vector() {
         check_tampers(r, "repository-vector", &tx, &spent, stride.max(16));
@@ -570,6 +598,54 @@ fn burn_cases(seed: u64) -> Vec<(String, Transaction, Vec<TxOut>)> {
             });
             if let Ok(Ok(tx)) = built {
                 out.push((format!("blinded-output-on-unspendable-script/{}", ["op_return-data", "empty", "op_return"][k]), tx, b.spent));
+            }
+        }
+    }
+    out
+}
+
+/// Verifying transactions in which two (three) blinded outputs commit to the SAME asset generator (same asset, same asset
+/// blinding factor; legal, and what wallets that reuse an abf produce). Every output still needs its own proofs.
+fn same_generator_cases(seed: u64) -> Vec<(String, Transaction, Vec<TxOut>)> {
+    let s = secp();
+    let mut out = Vec::new();
+    for conf_in in [false, true] {
+        for all_three in [false, true] {
+            let k = conf_in as u64 * 2 + all_three as u64;
+            let sc = Scenario {
+                inputs: vec![c04::InSpec { asset: 0, conf: conf_in, issuance: None, asset_only: false }],
+                outputs: vec![
+                    c04::OutSpec { asset: 0, value: 21, kind: OutKind::Marked(0) },
+                    c04::OutSpec { asset: 0, value: 13, kind: OutKind::Marked(2) },
+                    c04::OutSpec { asset: 0, value: 8, kind: OutKind::Marked(4) },
+                    c04::OutSpec { asset: 0, value: 2, kind: OutKind::Fee },
+                ],
+                rng_stream: 20 + k,
+            };
+            let b = c04::build(&sc);
+            let mut rng = DetRng::new(seed, 0xC05D, k);
+            let abf = AssetBlindingFactor::from_slice(gen::tweak(7900 + k).as_ref()).unwrap();
+            let vbf0 = ValueBlindingFactor::from_slice(gen::tweak(7910 + k).as_ref()).unwrap();
+            let vbf1 = ValueBlindingFactor::from_slice(gen::tweak(7920 + k).as_ref()).unwrap();
+            let sec0 = elements::TxOutSecrets::new(b.out_assets[0], abf, 21, vbf0);
+            let sec1 = elements::TxOutSecrets::new(b.out_assets[1], abf, 13, vbf1);
+            let fee_sec = elements::TxOutSecrets::new(c04::asset_a(), AssetBlindingFactor::zero(), 2, ValueBlindingFactor::zero());
+            let built = guard(|| -> Result<Transaction, String> {
+                let pk = |i: usize| zkp::PublicKey::from_secret_key(s, &b.receiver[i].unwrap());
+                let o0 = TxOut::with_txout_secrets(&mut rng, s, b.tx.output[0].script_pubkey.clone(), pk(0), gen::sk(7930 + k), sec0, &b.secrets).map_err(|e| format!("{:?}", e))?;
+                let o1 = TxOut::with_txout_secrets(&mut rng, s, b.tx.output[1].script_pubkey.clone(), pk(1), gen::sk(7940 + k), sec1, &b.secrets).map_err(|e| format!("{:?}", e))?;
+                let last_abf = if all_three { abf } else { AssetBlindingFactor::from_slice(gen::tweak(7950 + k).as_ref()).unwrap() };
+                let (o2, _) = TxOut::with_secrets_last(&mut rng, s, 8, b.tx.output[2].script_pubkey.clone(), pk(2), b.out_assets[2], gen::sk(7960 + k), last_abf, &b.secrets, &[&sec0, &sec1, &fee_sec])
+                    .map_err(|e| format!("{:?}", e))?;
+                let mut tx = b.tx.clone();
+                tx.output[0] = o0;
+                tx.output[1] = o1;
+                tx.output[2] = o2;
+                Ok(tx)
+            });
+            if let Ok(Ok(tx)) = built {
+                debug_assert!(tx.output[0].asset == tx.output[1].asset);
+                out.push((format!("outputs-sharing-one-asset-generator/{}", if all_three { "three" } else { "two" }), tx, b.spent));
             }
         }
     }
